@@ -269,7 +269,9 @@ def mutate(art, d, w, history, ctx):
                     return None
                 want = s['uid'] if s.get('uid') is not None else None
                 for p, b0, b1 in pk:
-                    if (want is not None and p.tag == 13 and p.body == want) or (want is None and p.tag == 17 and p.body.endswith(s['image'])):
+                    if (want is not None and p.tag == 13 and p.body == want) or (want is None and p.tag == 17 and s['image'] in p.body):
+                        if want is not None and b1 == b0:
+                            return None            # the empty user id has no octet to edit
                         m = bytearray(s['keybytes'])
                         o = b0 + int(pos * (b1 - b0)) % (b1 - b0) if want is not None else b1 - 1 - int(pos * 8)
                         if want is not None:
@@ -285,7 +287,8 @@ def mutate(art, d, w, history, ctx):
                                 return None
                         else:
                             m[o] ^= 1 << bit
-                            s['image'] = bytes(m[b1 - len(s['image']):b1])
+                            io = bytes(p.body).find(s['image'])
+                            s['image'] = bytes(m[b0 + io:b0 + io + len(s['image'])])
                         s['keybytes'] = bytes(m)
                         return a, False
                 return None
